@@ -162,3 +162,70 @@ def conj_parity(ctx, world, modes=("vjp", "jvp")):
             got = "anti-linear (linear in conj(g))" if "B" in definite and want == "G" else "complex-linear"
             ctx.fail("A4.parity", inst, f"{e.mode}:{e.prim_id}|parity", e.loc, f"on some path the rule is {got} in its {'cotangent' if e.mode == 'vjp' else 'tangent'}: an odd number of conjugations is applied to g itself, the derivative comes out conjugated", "a complex argument with a cotangent that has an imaginary part (a complex parameter of a real loss, or a holomorphic pipeline)")
     ctx.floor(f"A4.parity rules with a definite parity ({'+'.join(modes)})", n, 40 if "vjp" in modes else 10)
+
+
+def holomorphic_factors(ctx, world):
+    """A4.holo - the derivative of a holomorphic function is holomorphic.  A rule of exp / log / power / sin / dot / det
+    ... whose factor takes |.|, Re, Im, arg or the conjugate of an argument (or of the answer) is right on the real
+    axis at best: for a complex argument it drops or flips the imaginary part of the derivative (log|x| instead of
+    log x in d/dy x**y)."""
+    from .. import facts
+    from ..ruleir import SUMMARISED
+    from ..terms import children, walk
+    from ..tutil import expand
+    from .common import base_name, construct_of, is_numpy_callable, resolve_callee
+
+    fx = facts.load("holomorphic_functions")
+    holo, nonops = set(fx["holomorphic"]), set(fx["non_holomorphic_operations"])
+    ctx.describe("A4.holo", "in the VJP / JVP rules of holomorphic NumPy functions (exp, log, power, the trigonometric and hyperbolic functions, products, contractions, det, inv, ...) no abs / real / imag / angle / conj / sign is applied to a value that depends on the function's arguments or answer (kind casts of the finished result inside unbroadcast / match_complex excepted): the factor of a holomorphic function's derivative is an analytic expression")
+
+    def primal_dependent(t, seen=None):
+        """carries values of the arguments / the answer (not only of the (co)tangent, not only shapes)"""
+        seen = seen if seen is not None else set()
+        if t is None or id(t) in seen:
+            return False
+        seen.add(id(t))
+        if t.op == "attr" and t.name in ("shape", "ndim", "size", "dtype"):
+            return False
+        if t.op == "call":
+            r, _ = resolve_callee(world.ev, t)
+            if r is not None and ((is_numpy_callable(r) and base_name(r) in ("shape", "ndim", "size", "result_type", "iscomplexobj", "isscalar")) or r.qual.endswith((".vspace", ".metadata")) or r.qual == "builtins.len"):
+                return False
+        if (t.op == "sym" and t.get("role") == "ans") or (t.op == "arg" and isinstance(t.get("index"), int)):
+            return True
+        return any(primal_dependent(c, seen) for c in children(t))
+
+    n = 0
+    for e in world.table.entries:
+        if e.spec != "maker" or not world.in_numpy_scope(e) or not is_numpy_callable(e.prim) or base_name(e.prim) not in holo:
+            continue
+        ir = world.ir(e)
+        if ir is None or not ir.ok:
+            continue
+        n += 1
+        bad = None
+        for root in (ir.made, ir.result):
+            if root is None or bad is not None:
+                continue
+            for t in walk(expand(world.ev, root, set(SUMMARISED))):
+                op, operand = None, None
+                if t.op == "call":
+                    r, _ = resolve_callee(world.ev, t)
+                    if r is not None and is_numpy_callable(r) and base_name(r) in nonops and t.args:
+                        op, operand = base_name(r), t.args[0]
+                    elif t.fn.op == "attr" and t.fn.name in ("conj", "conjugate"):
+                        op, operand = "." + t.fn.name + "()", t.fn.obj
+                elif t.op == "attr" and t.name in ("real", "imag"):
+                    op, operand = "." + t.name, t.obj
+                if op is not None and primal_dependent(operand):
+                    bad = (t, op)
+                    break
+        inst = construct_of(e)
+        if bad is None:
+            ctx.ob("A4.holo", inst, True, e.loc)
+        else:
+            from ..model import norm_text
+
+            txt = norm_text(bad[0].node) if bad[0].node is not None else str(bad[0])
+            ctx.fail("A4.holo", inst, f"{e.mode}:{e.prim_id}[{e.argnum}]|nonholo:{bad[1]}", e.loc, f"`{txt[:70]}` applies {bad[1]} to a value of the arguments / the answer inside the rule of the holomorphic function {base_name(e.prim)}: the factor is then not the complex derivative", f"{base_name(e.prim)} at a complex argument with non-zero imaginary part (or negative real part): the derivative loses / flips its imaginary component")
+    ctx.floor("A4.holo rules of holomorphic functions", n, 60)
